@@ -86,6 +86,11 @@ def fast_rate_scenarios(prefix, rng, extra_cfg):
                 steps.append({"op": "adv", "d": rng.choice([1, 1, 1, 2, 3])})
                 steps.append({"op": "req", "src": "s1", "n": rng.choice([1, 1, 1, 2])})
             steps += [{"op": "retry", "src": "s1"}, {"op": "idle", "src": "s1"}]
+            # waits that are not a whole number of milliseconds: drain, ask for n (refused), retry after exactly the advertised wait
+            for n in (3, 6, 7, 11, 13, 27, 33, b):
+                if n <= b:
+                    steps += [{"op": "req", "src": "s1", "n": b}, {"op": "req", "src": "s1", "n": n}, {"op": "retry", "src": "s1"},
+                              {"op": "idle", "src": "s1"}]
             cfg = {"tick_us": 100, "rates": [{"p": 10000, "a": a, "b": b}], "cap": 65536, "level": level, "extract": "custom",
                    "qualified": True}
             cfg.update(extra_cfg)
